@@ -91,6 +91,9 @@ type member struct {
 	Family string `json:"family,omitempty"`
 	Class  string `json:"class"`
 	CRDs   []crd  `json:"crds"`
+	// Parent is the value of the pkg.crossplane.io/package label: the Provider object the revision
+	// belongs to. A Provider whose source moved to another organisation has revisions of both.
+	Parent string `json:"parentPackage,omitempty"`
 	reg    string
 	org    string
 }
@@ -192,8 +195,12 @@ func (rw *reconWorld) seedCRD(c crd) {
 
 func (rw *reconWorld) createRevision(r *rand.Rand, m *member, requests []rbacv1.PolicyRule, withNoise bool) {
 	pr := &pkgv1.ProviderRevision{ObjectMeta: metav1.ObjectMeta{Name: m.Name}}
+	pr.Labels = map[string]string{}
 	if m.Family != "" {
-		pr.Labels = map[string]string{"pkg.crossplane.io/provider-family": m.Family}
+		pr.Labels["pkg.crossplane.io/provider-family"] = m.Family
+	}
+	if m.Parent != "" {
+		pr.Labels["pkg.crossplane.io/package"] = m.Parent
 	}
 	pr.Spec.Package = m.Image
 	pr.Spec.DesiredState = pkgv1.PackageRevisionActive
@@ -275,7 +282,7 @@ func (rw *reconWorld) genCRDs(r *rand.Rand, org string, n int, shareWith *member
 	return out
 }
 
-var memberClasses = []string{"same-registry-and-org", "other-org", "other-registry", "other-registry-and-org", "other-family", "no-family-label"}
+var memberClasses = []string{"same-registry-and-org", "other-org", "other-registry", "other-registry-and-org", "other-family", "no-family-label", "other-org-same-parent-package"}
 
 func (rw *reconWorld) genMember(r *rand.Rand, class string) *member {
 	t := rw.target
@@ -283,6 +290,10 @@ func (rw *reconWorld) genMember(r *rand.Rand, class string) *member {
 	switch class {
 	case "other-org":
 		m.org = otherThan(r, poolOrgs, t.org)
+	case "other-org-same-parent-package":
+		// an older revision of the SAME Provider object, from before its source moved to this organisation
+		m.org = otherThan(r, poolOrgs, t.org)
+		m.Parent = t.Parent
 	case "other-registry":
 		m.reg = otherThan(r, poolRegistries, t.reg)
 	case "other-registry-and-org":
@@ -293,6 +304,9 @@ func (rw *reconWorld) genMember(r *rand.Rand, class string) *member {
 		m.Family = ""
 	}
 	m.Name = fmt.Sprintf("provider-%s-m%d-abcdef%d", m.org, rw.nextID, rw.nextID)
+	if m.Parent == "" {
+		m.Parent = fmt.Sprintf("provider-m%d", rw.nextID)
+	}
 	rw.nextID++
 	m.Image = renderImage(r, m.reg, m.org, fmt.Sprintf("provider-m%d", rw.nextID))
 	crdOrg := m.org
@@ -312,6 +326,7 @@ func reconCase(i int, r *rand.Rand, baseline []rbacv1.PolicyRule) *result {
 		t.Family = "provider-family-" + t.org
 	}
 	t.Name = fmt.Sprintf("provider-%s-target-0123abcd", t.org)
+	t.Parent = "provider-target"
 	t.Image = renderImage(r, t.reg, t.org, "provider-target")
 	rw.target = t
 	t.CRDs = rw.genCRDs(r, t.org, r.IntN(4), nil)
